@@ -503,11 +503,22 @@ func gen(t *rapid.T) Case {
 	// paths
 	paths := M{}
 	opSeq := 0
-	for _, tp := range [][2]string{{"/a", ""}, {"/a/{id}", "id"}, {"/b", ""}}[:rapid.IntRange(1, 3).Draw(t, "npaths")] {
+	for pidx, tp := range [][2]string{{"/a", ""}, {"/a/{id}", "id"}, {"/b", ""}, {"/b/{bid}", "bid"}}[:rapid.IntRange(1, 4).Draw(t, "npaths")] {
 		pi := M{}
+		var plevel []any
 		if tp[1] != "" {
 			p := M{"name": tp[1], "in": "path", "required": true, "type": rapid.SampledFrom([]string{"string", "integer"}).Draw(t, "pathty")}
-			pi["parameters"] = []any{p}
+			plevel = append(plevel, p)
+		}
+		// parameters of the path item itself, named after it: each path item keeps its own list
+		for k := rapid.IntRange(0, 2).Draw(t, "npathlevel"); k > 0; k-- {
+			p := g.paramSchemaFields(true)
+			p["name"], p["in"] = fmt.Sprintf("pl%d-%d", pidx, k), rapid.SampledFrom([]string{"query", "header"}).Draw(t, "plin")
+			plevel = append(plevel, p)
+			g.feats["path-level-param"] = true
+		}
+		if len(plevel) > 0 {
+			pi["parameters"] = plevel
 		}
 		for _, meth := range []string{"get", "post", "put"} {
 			if !g.chance(2, "op:"+meth) && !(meth == "get" && len(pi) <= 1) {
